@@ -10,7 +10,8 @@ EXPLANATION = ("Bit predicates of StreamId as expression trees (is_bidirectional
                "SessionId::try_from_session_stream accepts iff both; QStreamId shifts / MAX / guard; constructor discipline (private fields, unsafe "
                "unchecked constructors, every call site of them is an obligation discharged in C11-R4); session filtering: Driver::accept_uni / "
                "accept_bi / receive_datagram return an item only under `== session_id`, stop the receive side of foreign streams with "
-               "WEBTRANSPORT_BUFFERED_STREAM_REJECTED (0x3994bd84) and keep looping; Connection passes its own session id.")
+               "WEBTRANSPORT_BUFFERED_STREAM_REJECTED (0x3994bd84) and keep looping; Connection passes its own session id."
+               ' Also (C17-R4): the sync and async readers agree on every path, so no bound other than the varint range applies to a WebTransport session id.')
 NOT_DECIDED = ["behaviour at run time with interleaved traffic"]
 TRUSTED = ["rustc MIR", "RFC 9000 §2.1 stream id bits (spec/h3.json)"]
 
